@@ -2,6 +2,7 @@ package zog
 
 import (
 	"maps"
+	"slices"
 
 	p "github.com/Oudwins/zog/internals"
 )
@@ -48,10 +49,11 @@ func (v *StructSchema) Merge(other *StructSchema, others ...*StructSchema) *Stru
 
 // cloneShallow creates a shallow copy of the schema.
 // The new schema shares references to the transforms, tests and inner schema.
+// The slices are clipped so that appending to the copy (or to the original) reallocates instead of writing into shared spare capacity.
 func (v *StructSchema) cloneShallow() *StructSchema {
 	new := &StructSchema{
-		postTransforms: v.postTransforms,
-		tests:          v.tests,
+		postTransforms: slices.Clip(v.postTransforms),
+		tests:          slices.Clip(v.tests),
 		required:       v.required,
 		schema:         v.schema,
 	}
